@@ -50,6 +50,10 @@ pub struct ItemSpec {
     /// N14: explicit `panic!` is a deliberate abort
     #[serde(default)]
     pub abort_on_panic: bool,
+    /// N21: `for PAT in ITER BODY` -> `{ let mut verif_it_k = ITER; while let Some(PAT) = verif_it_k.next() BODY }`
+    /// (the language-defined meaning of `for` when ITER is already an iterator; Verus has no `continue` in `for` loops)
+    #[serde(default)]
+    pub for_to_while: bool,
     /// override id used in clauses.vspec / evidence
     pub id: Option<String>,
     /// kind = "local": the function that contains the `let <name> = <init>;` whose initializer is extracted as a const
